@@ -231,10 +231,10 @@ def run(F, R, tier):
             ok = dyn.get("k") == "Lit" and dyn.get("v") is False
             what = "a module's types dependency is never treated as a dynamic import"
         # the resolution kind named in the call agrees with the resolution that is checked
-        kind_arg = [ctor_of(peel(x)) for x in a[1:] if (ctor_of(peel(x)) or "").startswith("graph::ResolutionKind::")]
+        kind_arg = [ctor_of(peel(x)) for x in a[1:] if (ctor_of(peel(x)) or "").startswith("source::ResolutionKind::")]
         res_arg = [peel_value(x) for x in a[1:] if peel_value(x).get("k") == "Field" and peel_value(x)["field"] in ("maybe_code", "maybe_type", "dependency")]
         if kind_arg and res_arg:
-            want = "graph::ResolutionKind::Execution" if res_arg[0]["field"] == "maybe_code" else "graph::ResolutionKind::Types"
+            want = "source::ResolutionKind::Execution" if res_arg[0]["field"] == "maybe_code" else "source::ResolutionKind::Types"
             R.ob("C02-e", "`%s` is checked as a %s resolution" % (res_arg[0]["field"], want.split("::")[-1]), kind_arg[0] == want,
                  "check_resolution(%s, .., %s): the policy errors (local import, https->http) and the message are built for the wrong kind of edge" % (kind_arg[0].split("::")[-1], expr_text(res_arg[0])), where(c))
         R.ob("C02-e", what, ok, "check_resolution(.., %s): the missing-dynamic-import leniency would be applied to (or withheld from) the wrong edges, so a reachable failure is skipped or an unfollowed one reported" % expr_text(a[-1]), where(c))
